@@ -96,6 +96,15 @@ func (self *Interpreter) callFunc(span errors.Span, val value.Value, args []ast.
 		closure.Scopes = append(callScopes, argsOut)
 		self.callStackSize++
 
+		// The body belongs to the module which created the closure: functions called from it must find
+		// that module (and their own) as the current one, not the module of whoever calls the closure.
+		var previousModule *string
+		if closure.Module != "" && closure.Module != self.currentModuleName {
+			currModulePrev := self.currentModuleName
+			previousModule = &currModulePrev
+			self.switchModule(closure.Module)
+		}
+
 		// use the closure's scopes as the scopes of the current module
 		scopesPrev := self.currentModule.scopes
 		// use the closure's scope here
@@ -112,6 +121,9 @@ func (self *Interpreter) callFunc(span errors.Span, val value.Value, args []ast.
 			closure.Scopes = closure.Scopes[:len(closure.Scopes)-1]
 			// restore scopes
 			self.currentModule.scopes = scopesPrev
+			if previousModule != nil {
+				self.switchModule(*previousModule)
+			}
 		}()
 
 		val, i := self.block(closure.Block, false)
